@@ -9,7 +9,7 @@ CONSTANTS MaxArg, MaxSeq
 
 ArgAlpha == {"a", "+", ",", ":", ")", "(", " ", "é"}    \* é: a two-byte character (offsets are bytes in the code, characters here)
 Forms == DelimOpen \cup {":"}
-NCtx == 16
+NCtx == 18
 
 VARIABLES mode, form, ctx, arg, seq
 vars == <<mode, form, ctx, arg, seq>>
@@ -35,6 +35,8 @@ Ctx(c, x) ==
       [] c = 14 -> << <<Pair(<<"a">>, FALSE, <<x>>)>>, <<Pair(<<"a">>, FALSE, <<P("preview-up")>>)>> >> \* override
       [] c = 15 -> << <<Pair(<<"up", "load">>, FALSE, <<P("change-multi"), X("change-multi", "(", <<"a">>), x>>)>> >>
       [] c = 16 -> << <<Pair(<<"space", "alt-x">>, FALSE, <<X("put", "{", <<"a">>), x, P("print-query")>>)>> >>
+      [] c = 17 -> << <<Pair(<<"alt-+", "alt-:">>, FALSE, <<x>>), Pair(<<"x", "alt-,">>, FALSE, <<P("down"), x>>)>> >>   \* ALT + a delimiter
+      [] c = 18 -> << <<Pair(<<"alt-+">>, FALSE, <<P("abort")>>)>>, <<Pair(<<"a", "alt-+">>, TRUE, <<x>>)>> >>
 
 RECURSIVE ParseAll(_, _), MeanAll(_, _)
 ParseAll(km, bs) == IF bs = <<>> THEN [err |-> FALSE, km |-> km]
@@ -52,7 +54,7 @@ Init == \/ /\ mode = "rt" /\ form \in Forms /\ ctx \in 1..NCtx /\ arg = <<>> /\ 
 GrowArg == /\ mode = "rt" /\ Len(arg) < MaxArg
            /\ \E c \in ArgAlpha : arg' = Append(arg, c)
            /\ UNCHANGED <<mode, form, ctx, seq>>
-SeqAlpha == {"a", ",", ":", "+", "(", ")", "~", " ", "up", "execute", "put", "unbind", "ctrl-a", "bogus"}
+SeqAlpha == {"a", ",", ":", "+", "(", ")", "~", " ", "up", "execute", "put", "unbind", "ctrl-a", "bogus", "alt-"}
 GrowSeq == /\ mode = "seq" /\ Len(seq) < MaxSeq
            /\ \E c \in SeqAlpha : seq' = Append(seq, c)
            /\ UNCHANGED <<mode, form, ctx, arg>>
